@@ -42,6 +42,10 @@ func main() {
 		genC02(cw, *seed, *tier)
 	case "c16":
 		genC16(cw, *seed, *tier)
+	case "c18":
+		genC18(cw, *seed, *tier)
+	case "c17":
+		genC17(cw, *seed, *tier)
 	case "c07":
 		genC07(cw, *seed, *tier)
 	case "c08":
